@@ -28,6 +28,13 @@ New(i, c) ==
   /\ objs' = Append(objs, Obj(i, c))
   /\ hist' = Append(hist, [op |-> "new", obj |-> Len(objs) + 1, inp |-> i, ctor |-> c, from |-> 0, to |-> 0])
 
+(* staged construction: the first level is resolved by a throw-away resolver (coarse last level) and the object is  *)
+(* built with from_graph on that fine graph and the remaining fragment blocks; it starts at level 1               *)
+NewStaged(i) ==
+  /\ Len(objs) < MaxObjs /\ Levels[i] >= 2
+  /\ objs' = Append(objs, [inp |-> i, ctor |-> "staged", level |-> 1])
+  /\ hist' = Append(hist, [op |-> "new", obj |-> Len(objs) + 1, inp |-> i, ctor |-> "staged", from |-> 0, to |-> 0])
+
 Remaining(o) == Levels[objs[o].inp] - objs[o].level
 
 Resolve(o) ==
@@ -65,6 +72,7 @@ NewBad(i, kind) ==
 
 Next == /\ Len(hist) < MaxEvents
         /\ \/ \E i \in Inputs, c \in Ctors : New(i, c)
+           \/ \E i \in Inputs : NewStaged(i)
            \/ \E i \in Inputs, kind \in BadKinds : NewBad(i, kind)
            \/ \E o \in DOMAIN objs : Resolve(o) \/ Iterate(o) \/ All(o) \/ Past(o)
 Spec == Init /\ [][Next]_vars
